@@ -51,6 +51,25 @@ def _fresh_vec(tag, n):
 # scipy.optimize
 
 
+def _fun_sig(value, qvars):
+    """identify an objective by its value at an ARBITRARY probe point: the term with the probe variables renamed to
+    canonical ones.  Two calls whose objectives agree as functions of the probe point are the same problem; a
+    different frozen covariance, constraint or data gives a different term (no memo hit: fresh results)."""
+    import hashlib
+
+    import z3
+
+    sx = _sx()
+    if not sx.is_sym(value):
+        return repr(value)
+    subs = []
+    for i, q in enumerate(qvars):
+        if sx.is_sym(q) and z3.is_const(q.e) and q.e.decl().kind() == z3.Z3_OP_UNINTERPRETED:
+            subs.append((q.e, z3.Real("memoq_%d" % i)))
+    t = z3.substitute(sx.rv(value), *subs) if subs else sx.rv(value)
+    return hashlib.sha1(str(sx.simp(t)).encode()).hexdigest()
+
+
 def _opt_key(fun, n, bounds, constraints):
     """identify 'the same minimisation problem': owner minimizer, fixed mask and fixed values, bounds; None if unknown.
     Contract: a well-posed problem has a unique minimum, so re-minimising it (from any start) reports the same point."""
@@ -99,6 +118,8 @@ class SymOpt:
         rec["fq"] = fun(snp.array(q))  # objective identity probe
         rec["V_at_q"] = DECOMP[-1][1] if DECOMP else None  # the matrix the cost kernel consumed for this evaluation
         key = _opt_key(fun, n, bounds, constraints)
+        if key is not None:
+            key = key + (_fun_sig(rec["fq"], q),)
         memo = MEMO.get(key) if key is not None else None
         xs = list(memo["x"]) if memo is not None else _fresh_vec("opt%d_x" % k, n)
         if key is not None and memo is None:
@@ -172,13 +193,14 @@ class SymND:
             x = list(snp.asarray(x).d)
             n = len(x)
             owner0 = getattr(self.f, "__self__", None)
-            hkey = ("nd.Hessian", id(owner0), tuple(bool(b) for b in getattr(owner0, "_par_fixed", [])), tuple(str(sx.simp(sx.rv(v))) if sx.is_sym(v) else repr(v) for v in x))
+            at = _fresh_vec("hes%d_at" % k, n)
+            _before(at)
+            fat = self.f(snp.array(at))  # evaluations around x leave the graph somewhere else; also identifies the function
+            hkey = ("nd.Hessian", id(owner0), tuple(bool(b) for b in getattr(owner0, "_par_fixed", [])), tuple(str(sx.simp(sx.rv(v))) if sx.is_sym(v) else repr(v) for v in x), _fun_sig(fat, at))
             if owner0 is not None and hkey in MEMO:  # deterministic backend: same function, same point -> same matrix
                 H = MEMO[hkey]
                 CALLS.append(dict(kind="nd.Hessian", n=n, at=x, H=H, memo_hit=True))
                 return snp.array(H)
-            if MODE["adversarial"]:
-                self.f(snp.array(_fresh_vec("hes%d_at" % k, n)))  # evaluations around x leave the graph somewhere else
             # contract: the function does not depend on fixed parameters (zero rows / columns there) and the Hessian
             # of the free block at a local minimum is positive definite
             owner = getattr(self.f, "__self__", None)
@@ -340,8 +362,9 @@ class SymMinuit:
         v_at_q = DECOMP[-1][1] if DECOMP else None
         start = list(self.values)
         sx = _sx()
+        self._sig = _fun_sig(fq, q)
         key = ("migrad", id(getattr(self.fcn, "__self__", self.fcn)), tuple(bool(b) for b in self.fixed), tuple(str(sx.simp(sx.rv(self.values[i]))) if sx.is_sym(self.values[i]) else repr(self.values[i]) for i in range(len(self.names)) if self.fixed[i]),
-               tuple(str(l) for l in self.limits))
+               tuple(str(l) for l in self.limits), self._sig)
         memo = MEMO.get(key)
         new = []
         for i in range(len(self.names)):
@@ -381,7 +404,7 @@ class SymMinuit:
         n = len(self.names)
         sx = _sx()
         # deterministic backend: HESSE at the same point of the same problem gives the same matrix
-        hkey = ("hesse", id(getattr(self.fcn, "__self__", self.fcn)), tuple(bool(b) for b in self.fixed), tuple(str(sx.simp(sx.rv(v))) if sx.is_sym(v) else repr(v) for v in self.values))
+        hkey = ("hesse", id(getattr(self.fcn, "__self__", self.fcn)), tuple(bool(b) for b in self.fixed), tuple(str(sx.simp(sx.rv(v))) if sx.is_sym(v) else repr(v) for v in self.values), getattr(self, "_sig", None))
         if hkey in MEMO:
             C = MEMO[hkey]
             self.covariance = _np().array(C)
@@ -484,7 +507,7 @@ def make_rec_minuit():
 # ------------------------------------------------------------------------------------------------
 
 
-DECOMP_OPTS = dict(skip=False)
+DECOMP_OPTS = dict(skip=False, max_iterations=None)
 DECOMP = []  # matrices handed to the Cholesky / QR decomposition nodes (most recent last)
 
 
@@ -515,15 +538,16 @@ def install_decomp_recorder(max_iterations=None):
                 return rec
 
             setattr(mod, nm, make(orig, where + nm))
-    if max_iterations is not None:
-        real_kc = fitmod.kc
+    DECOMP_OPTS["max_iterations"] = max_iterations
+    real_kc = fitmod.kc
 
-        def kc(*keys):
-            if keys == ("fit", "iterative_do_fit", "max_iterations"):
-                return max_iterations
-            return real_kc(*keys)
+    def kc(*keys):
+        # the iteration budget is a configuration value: scenarios may set DECOMP_OPTS["max_iterations"] (both modes)
+        if keys == ("fit", "iterative_do_fit", "max_iterations") and DECOMP_OPTS.get("max_iterations") is not None:
+            return DECOMP_OPTS["max_iterations"]
+        return real_kc(*keys)
 
-        fitmod.kc = kc
+    fitmod.kc = kc
 
 
 def install_backends(symbolic):
